@@ -523,6 +523,16 @@ func NewNumeric(num string) *NumericNode {
 		panic(err)
 	}
 
+	// JSON prints the shortest digits that read back as the same float64 and
+	// pads them with zeros. For an integer beyond 2^53 those are not its
+	// digits (2^62 prints as 4611686018427388000), but the text is an
+	// integer literal, which the parser reads digit for digit. Print the
+	// exact value of such a number, so that it parses to an equal number.
+	const twoTo53, exponentFrom = 1 << 53, 1e21
+	if abs := math.Abs(f); abs >= twoTo53 && abs < exponentFrom {
+		str = strconv.AppendFloat(str[:0], f, 'f', 0, 64)
+	}
+
 	return &NumericNode{&numberNode{literal: num, parsed: string(str)}}
 }
 
